@@ -1599,6 +1599,10 @@ private:
       // Since the error has already been handled in _populate_formatted_log_message,
       // there is no additional action required here.
     }
+    QUILL_CATCH_ALL()
+    {
+      // same as above for exceptions that do not derive from std::exception
+    }
 #endif
   }
 
@@ -1628,6 +1632,19 @@ private:
         fmtquill::format(R"([Could not format log statement. message: "{}", location: "{}", error: "{}"])",
                          transit_event->macro_metadata->message_format(),
                          transit_event->macro_metadata->short_source_location(), e.what());
+
+      transit_event->formatted_msg->append(error);
+      _options.error_notifier(error);
+    }
+    QUILL_CATCH_ALL()
+    {
+      // a user formatter may throw anything; treat it like any other formatting failure so that
+      // the record is still consumed from the frontend queue
+      transit_event->formatted_msg->clear();
+      std::string const error = fmtquill::format(
+        R"([Could not format log statement. message: "{}", location: "{}", error: "{}"])",
+        transit_event->macro_metadata->message_format(),
+        transit_event->macro_metadata->short_source_location(), "unknown exception");
 
       transit_event->formatted_msg->append(error);
       _options.error_notifier(error);
